@@ -307,39 +307,142 @@ theorem private_definitions_satisfiable (P : Asp.Program) (priv : List Pred)
       ∀ q ∈ priv, DefHolds P T fc q.symbol q.arity :=
   private_extents_exist P priv hrec T0 fc
 
+/-- **Simplification never changes what a formula of a completed theory is to `control_translate`**:
+    a completed definition keeps its head predicate (so it stays the definition of that public or private
+    predicate), and a constraint - whose body has no implication or equivalence - never acquires one.
+    Without this a private definition could silently become a conjecture, or a constraint an assumption,
+    when simplification is on. -/
+theorem definitions_keep_their_role_under_simplification (P : Asp.Program) (ins : List Pred)
+    (hp : globalsPanic P = false) (Γ : Theory) (hΓ : completion (tauStar P) ins = some Γ)
+    (F : Formula) (hF : F ∈ Γ) (fuel : Nat) :
+    headPredicate (simplifyWith .classic .fixpoint fuel F).1 = headPredicate F :=
+  headPredicate_simplify_completion P ins hp Γ hΓ F hF fuel
+
 /-- **"Hence if every emitted problem is a theorem the claimed relation holds"** - the property's
     conclusion stated about the two programs alone, with no interpretation of the emitted problems left
-    in the statement (program against program, no placeholders, no proof outline, tightness not
-    bypassed, simplification off; every decomposition and eq-break setting; `hnc`: the decidable side
-    condition that `rename_conflicting_symbols` is the identity). If no interpretation refutes an emitted
-    problem, then
+    in the statement (program against program, placeholders of any sort allowed, no proof outline, tightness
+    not bypassed; every simplification, decomposition and eq-break setting; `hnc`: the decidable side
+    condition that `rename_conflicting_symbols` is the identity). Programs with placeholders are read with
+    the values `fc` gives to the placeholders (`p.substSym (phNu t.phMap fc)`, `placeholder_reading`).
+    If no interpretation refutes an emitted problem, then
     * forward: every stable model of the specification program whose input facts and constants satisfy
       the user-guide assumptions has the same public part (extents of the input and output predicates)
       as some stable model of the program, and
     * backward: the same with the two programs exchanged.
-    Rests on `external_refutes_programs`, `private_definitions_satisfiable` and
-    `one_interpretation_carries_both_readings` (which needs the repaired private renaming). -/
+    Rests on `external_refutes_programs`, `private_definitions_satisfiable`,
+    `one_interpretation_carries_both_readings` (which needs the repaired private renaming) and, for
+    simplified theories, `definitions_keep_their_role_under_simplification`. -/
 theorem valid_problems_imply_external_equivalence (t : ExternalTask) (PL : Asp.Program)
-    (hspec : t.specification = .inl PL) (hph : t.userGuide.placeholders = []) (hpo : t.proofOutline = [])
-    (hbyp : t.bypassTightness = false) (hsimp : t.simplify = false)
+    (hspec : t.specification = .inl PL) (hpo : t.proofOutline = [])
+    (hbyp : t.bypassTightness = false)
     (fuel : Nat) (ps : List Problem) (h : externalProblems t fuel = .ok ps)
     (hnc : ∀ ΓL ΓR, theoryTranslate t t.phMap fuel PL = .ok ΓL → theoryTranslate t t.phMap fuel t.program = .ok ΓR →
       NoSymbolConflictGen (assembledGen t (leftSide t ΓL) t.ugAss ΓR))
     (hvalid : ∀ (J : Interp) (ρ : Asg), ¬ ∃ P ∈ ps, Refutes J ρ P) :
     ((t.direction = .universal ∨ t.direction = .forward) →
       ∀ (TL : PredI) (fc : FcI) (ρ : Asg),
-        (∀ a ∈ t.userGuide.formulas, a.role = .assumption → sat ⟨TL, fc⟩ a.formula ρ) →
-        Stable PL t.userGuide.inputs TL fc →
-        ∃ TR : PredI, Stable t.program t.userGuide.inputs TR fc ∧
+        (∀ a ∈ t.userGuide.formulas, a.role = .assumption → sat ⟨TL, fc⟩ (a.formula.replacePlaceholders t.phMap) ρ) →
+        Stable (PL.substSym (phNu t.phMap fc)) t.userGuide.inputs TL fc →
+        ∃ TR : PredI, Stable (t.program.substSym (phNu t.phMap fc)) t.userGuide.inputs TR fc ∧
           ∀ (q : String) (ds : List Dom), (⟨q, ds.length⟩ : Pred) ∈ t.userGuide.publicPreds → (TR q ds ↔ TL q ds)) ∧
     ((t.direction = .universal ∨ t.direction = .backward) →
       ∀ (TR : PredI) (fc : FcI) (ρ : Asg),
-        (∀ a ∈ t.userGuide.formulas, a.role = .assumption → sat ⟨TR, fc⟩ a.formula ρ) →
-        Stable t.program t.userGuide.inputs TR fc →
-        ∃ TL : PredI, Stable PL t.userGuide.inputs TL fc ∧
+        (∀ a ∈ t.userGuide.formulas, a.role = .assumption → sat ⟨TR, fc⟩ (a.formula.replacePlaceholders t.phMap) ρ) →
+        Stable (t.program.substSym (phNu t.phMap fc)) t.userGuide.inputs TR fc →
+        ∃ TL : PredI, Stable (PL.substSym (phNu t.phMap fc)) t.userGuide.inputs TL fc ∧
           ∀ (q : String) (ds : List Dom), (⟨q, ds.length⟩ : Pred) ∈ t.userGuide.publicPreds → (TL q ds ↔ TR q ds)) :=
-  ⟨fun hdir => external_forward_sound_programs t PL hspec hph hpo hbyp hsimp fuel ps h hdir hnc hvalid,
-   fun hdir => external_backward_sound_programs t PL hspec hph hpo hbyp hsimp fuel ps h hdir hnc hvalid⟩
+  ⟨fun hdir => external_forward_sound_programs t PL hspec hpo hbyp fuel ps h hdir hnc hvalid,
+   fun hdir => external_backward_sound_programs t PL hspec hpo hbyp fuel ps h hdir hnc hvalid⟩
+
+/-- **The same conclusion for a specification** (specification against program, placeholders of any sort
+    allowed, no proof outline, tightness not bypassed; simplification on or off): if no interpretation refutes
+    an emitted problem, then
+    * backward: every stable model `TR` of the program, together with any extents
+      `TL` on the specification's vocabulary that agree with it on the public predicates and satisfy the
+      user-guide assumptions and the specification's universal assumptions, satisfies every universal or
+      backward `spec` formula - the program meets the specification;
+    * forward: every `TL` that satisfies the user-guide assumptions, the specification's
+      assumptions and its universal or forward `spec` formulas has the public part of some stable model of
+      the program - the specification admits only behaviours of the program. -/
+theorem valid_problems_imply_specification_met (t : ExternalTask) (S : Specification)
+    (hspec : t.specification = .inr S) (hpo : t.proofOutline = [])
+    (hbyp : t.bypassTightness = false)
+    (fuel : Nat) (ps : List Problem) (h : externalProblems t fuel = .ok ps)
+    (hnc : ∀ ΓR, theoryTranslate t t.phMap fuel t.program = .ok ΓR →
+      NoSymbolConflictGen (assembledGen t (S.map (SAnn.replacePlaceholders t.phMap)) t.ugAss ΓR))
+    (hvalid : ∀ (J : Interp) (ρ : Asg), ¬ ∃ P ∈ ps, Refutes J ρ P) :
+    ((t.direction = .universal ∨ t.direction = .backward) →
+      ∀ (TL TR : PredI) (fc : FcI) (ρ : Asg),
+        (∀ (q : String) (ds : List Dom), (⟨q, ds.length⟩ : Pred) ∈ t.userGuide.publicPreds → (TL q ds ↔ TR q ds)) →
+        Stable (t.program.substSym (phNu t.phMap fc)) t.userGuide.inputs TR fc →
+        (∀ a ∈ t.userGuide.formulas, a.role = .assumption → sat ⟨TL, fc⟩ (a.formula.replacePlaceholders t.phMap) ρ) →
+        (∀ a ∈ S, lStable a = true → sat ⟨TL, fc⟩ (a.formula.replacePlaceholders t.phMap) ρ) →
+        ∀ a ∈ S, lBwdConc a = true → sat ⟨TL, fc⟩ (a.formula.replacePlaceholders t.phMap) ρ) ∧
+    ((t.direction = .universal ∨ t.direction = .forward) →
+      ∀ (TL : PredI) (fc : FcI) (ρ : Asg),
+        (∀ a ∈ t.userGuide.formulas, a.role = .assumption → sat ⟨TL, fc⟩ (a.formula.replacePlaceholders t.phMap) ρ) →
+        (∀ a ∈ S, lStable a = true → sat ⟨TL, fc⟩ (a.formula.replacePlaceholders t.phMap) ρ) →
+        (∀ a ∈ S, lFwdPrem a = true → sat ⟨TL, fc⟩ (a.formula.replacePlaceholders t.phMap) ρ) →
+        ∃ TR : PredI, Stable (t.program.substSym (phNu t.phMap fc)) t.userGuide.inputs TR fc ∧
+          ∀ (q : String) (ds : List Dom), (⟨q, ds.length⟩ : Pred) ∈ t.userGuide.publicPreds → (TR q ds ↔ TL q ds)) :=
+  ⟨fun hdir => external_backward_sound_specification t S hspec hpo hbyp fuel ps h hdir hnc hvalid,
+   fun hdir => external_forward_sound_specification t S hspec hpo hbyp fuel ps h hdir hnc hvalid⟩
+
+/-- **The conclusion of C02 for every accepted program-vs-program task** - placeholders, simplification,
+    proof outline (lemmas, inductive lemmas, definitions) and all. For the translated theories `ΓL`, `ΓR`
+    and the accepted outline `po` of the task: if `rename_conflicting_symbols` changes nothing
+    (`NoConflictAll`, decidable on the task) and NO emitted problem - outline problems and final problems -
+    has a countermodel, then in each requested direction every stable model of one program, for input
+    facts and constants that satisfy the user-guide assumptions, has the same public part as some stable
+    model of the other program. (With an outline only this direction can hold: a false lemma has a
+    countermodel although the programs are equivalent.) -/
+theorem every_accepted_program_task_sound (t : ExternalTask) (PL : Asp.Program)
+    (hspec : t.specification = .inl PL) (hbyp : t.bypassTightness = false)
+    (fuel : Nat) (ps : List Problem) (h : externalProblems t fuel = .ok ps) :
+    ∃ (ΓL ΓR : Theory) (po : ProofOutline),
+      theoryTranslate t t.phMap fuel PL = .ok ΓL ∧ theoryTranslate t t.phMap fuel t.program = .ok ΓR ∧
+      (Outline.NoConflictAll (assembledGen t (leftSide t ΓL) t.ugAss ΓR) ((rightSide t ΓR).filter isSpec)
+          ((leftSide t ΓL).filter lBwdConc) t.breakEq po →
+        (∀ P ∈ ps, ∀ J ρ, ¬ Refutes J ρ P) →
+        ((t.direction = .universal ∨ t.direction = .forward) →
+          ∀ (TL : PredI) (fc : FcI) (ρ : Asg),
+            (∀ a ∈ t.userGuide.formulas, a.role = .assumption → sat ⟨TL, fc⟩ (a.formula.replacePlaceholders t.phMap) ρ) →
+            Stable (PL.substSym (phNu t.phMap fc)) t.userGuide.inputs TL fc →
+            ∃ TR : PredI, Stable (t.program.substSym (phNu t.phMap fc)) t.userGuide.inputs TR fc ∧
+              ∀ (q : String) (ds : List Dom), (⟨q, ds.length⟩ : Pred) ∈ t.userGuide.publicPreds → (TR q ds ↔ TL q ds)) ∧
+        ((t.direction = .universal ∨ t.direction = .backward) →
+          ∀ (TR : PredI) (fc : FcI) (ρ : Asg),
+            (∀ a ∈ t.userGuide.formulas, a.role = .assumption → sat ⟨TR, fc⟩ (a.formula.replacePlaceholders t.phMap) ρ) →
+            Stable (t.program.substSym (phNu t.phMap fc)) t.userGuide.inputs TR fc →
+            ∃ TL : PredI, Stable (PL.substSym (phNu t.phMap fc)) t.userGuide.inputs TL fc ∧
+              ∀ (q : String) (ds : List Dom), (⟨q, ds.length⟩ : Pred) ∈ t.userGuide.publicPreds → (TL q ds ↔ TR q ds))) :=
+  programs_equivalent_of_valid_problems t PL hspec hbyp fuel ps h
+
+/-- **The conclusion of C02 for every accepted specification-vs-program task** (placeholders,
+    simplification and proof outline included). -/
+theorem every_accepted_specification_task_sound (t : ExternalTask) (S : Specification)
+    (hspec : t.specification = .inr S) (hbyp : t.bypassTightness = false)
+    (fuel : Nat) (ps : List Problem) (h : externalProblems t fuel = .ok ps) :
+    ∃ (ΓR : Theory) (po : ProofOutline),
+      theoryTranslate t t.phMap fuel t.program = .ok ΓR ∧
+      (Outline.NoConflictAll (assembledGen t (S.map (SAnn.replacePlaceholders t.phMap)) t.ugAss ΓR)
+          ((rightSide t ΓR).filter isSpec) ((S.map (SAnn.replacePlaceholders t.phMap)).filter lBwdConc) t.breakEq po →
+        (∀ P ∈ ps, ∀ J ρ, ¬ Refutes J ρ P) →
+        ((t.direction = .universal ∨ t.direction = .backward) →
+          ∀ (TL TR : PredI) (fc : FcI) (ρ : Asg),
+            (∀ (q : String) (ds : List Dom), (⟨q, ds.length⟩ : Pred) ∈ t.userGuide.publicPreds → (TL q ds ↔ TR q ds)) →
+            Stable (t.program.substSym (phNu t.phMap fc)) t.userGuide.inputs TR fc →
+            (∀ a ∈ t.userGuide.formulas, a.role = .assumption → sat ⟨TL, fc⟩ (a.formula.replacePlaceholders t.phMap) ρ) →
+            (∀ a ∈ S, lStable a = true → sat ⟨TL, fc⟩ (a.formula.replacePlaceholders t.phMap) ρ) →
+            ∀ a ∈ S, lBwdConc a = true → sat ⟨TL, fc⟩ (a.formula.replacePlaceholders t.phMap) ρ) ∧
+        ((t.direction = .universal ∨ t.direction = .forward) →
+          ∀ (TL : PredI) (fc : FcI) (ρ : Asg),
+            (∀ a ∈ t.userGuide.formulas, a.role = .assumption → sat ⟨TL, fc⟩ (a.formula.replacePlaceholders t.phMap) ρ) →
+            (∀ a ∈ S, lStable a = true → sat ⟨TL, fc⟩ (a.formula.replacePlaceholders t.phMap) ρ) →
+            (∀ a ∈ S, lFwdPrem a = true → sat ⟨TL, fc⟩ (a.formula.replacePlaceholders t.phMap) ρ) →
+            ∃ TR : PredI, Stable (t.program.substSym (phNu t.phMap fc)) t.userGuide.inputs TR fc ∧
+              ∀ (q : String) (ds : List Dom), (⟨q, ds.length⟩ : Pred) ∈ t.userGuide.publicPreds → (TR q ds ↔ TL q ds))) :=
+  specification_met_of_valid_problems t S hspec hbyp fuel ps h
 
 /-- Non-vacuity of the hypotheses of `valid_problems_imply_external_equivalence`: the task that compares
     `p(X) :- q(X).` with itself (input `q/1`, `p/1` private on both sides, no output) is accepted and
